@@ -37,3 +37,78 @@ Proof.
   - cbn [skipBlankLines]. replace (is_empty (strip [])) with true by reflexivity.
     destruct (pl_first _ _ _ Hpl) as (c & rest & -> & Hc). rewrite strip_nonblank; [reflexivity|exact Hc].
 Qed.
+
+(* ---- after a fenced code block: the session is again one the block theorems apply to ---- *)
+From Rimu Require Import CodeBlock.
+
+Lemma map_dcore_set_close rx : forall i (D : list ddef),
+  (forall d, nth_error D i = Some d -> is_classinj d = true) ->
+  map dcore ((fix go (k : nat) (l : list ddef) : list ddef :=
+               match l with
+               | [] => []
+               | d :: t => match k with
+                           | O => mkD (d_name d) (d_openTag d) (d_closeTag d) (d_openRe d) rx
+                                      (d_verify d) (d_delim d) (d_content d) (d_expand d) :: t
+                           | S k' => d :: go k' t
+                           end
+               end) i D) = map dcore D.
+Proof.
+  induction i as [|i IH]; intros D H; destruct D as [|d t]; try reflexivity.
+  - cbn [map]. f_equal. specialize (H d eq_refl). unfold dcore, is_classinj in *. cbn [d_delim d_name d_openTag d_closeTag d_openRe d_closeRe d_verify d_content d_expand].
+    destruct (d_delim d); try discriminate. reflexivity.
+  - cbn [map]. f_equal. apply IH. intros d' Hd'. apply H. exact Hd'.
+Qed.
+
+Lemma std_set_closeRe i rx s : dblocks_std (s_dblocks s) -> is_classinj (nth i dblocks_default dummy_ddef) = true -> (i < 9)%nat ->
+  dblocks_std (s_dblocks (set_closeRe i rx s)).
+Proof.
+  intros H Hc Hi. unfold set_closeRe. unfold dblocks_std in *. destruct s; unfold set_dblocks; cbn [State.s_dblocks] in *.
+  rewrite map_dcore_set_close; [exact H|].
+  intros d Hd. destruct (std_nth_error _ i d H Hd) as (d' & Ed' & Hcore).
+  rewrite (nth_error_nth _ _ dummy_ddef Ed') in Hc.
+  destruct (dcore_fields _ _ Hcore) as (_ & _ & _ & _ & _ & E6 & _). unfold is_classinj in *. rewrite E6. exact Hc.
+Qed.
+
+Lemma quiet_code_after s : quiet_default s -> quiet_default (code_after s).
+Proof.
+  intros (Hd & Hr & Hq & Hp & Ho). unfold code_after.
+  assert (Hstd : dblocks_std (s_dblocks (set_closeRe 4 (lit_close fence) s))) by (apply std_set_closeRe; [exact Hd|reflexivity|lia]).
+  destruct Hp as (P1 & P2 & P3 & P4).
+  unfold set_closeRe in *. destruct s; cbn in *. repeat split; assumption.
+Qed.
+
+Definition code_html (content : list str) : str := $"<pre><code>" ++ escape (join [10] content) ++ $"</code></pre>".
+
+Theorem code_block_then_rest fuel doc n content rest s : quiet_default s -> Forall nlfree content -> ~ In fence content ->
+  doc_loop (S fuel) doc (S n) (fence :: content ++ fence :: rest) s =
+  match doc_loop (S fuel) doc n rest (code_after s) with
+  | Ok (r, s2) => Ok (code_html content ++ match rest with [] => [] | _ => [10] end ++ r, s2)
+  | Raise e => Raise e
+  | Fuel => Fuel
+  end.
+Proof.
+  intros Hq Hc Hnot. destruct fence_facts as (Fl & Fli & _).
+  rewrite (TableFacts.doc_loop_delimited_block (S fuel) doc n (fence :: content ++ fence :: rest) fence (content ++ fence :: rest)
+             (fence :: content ++ fence :: rest) (fence :: content ++ fence :: rest)
+             (code_html content ++ match rest with [] => [] | _ => [10] end) rest s s s (code_after s)).
+  - destruct (doc_loop (S fuel) doc n rest (code_after s)) as [[r s2]| |]; try reflexivity. rewrite <- app_assoc. reflexivity.
+  - reflexivity.
+  - unfold lineblocks_render. apply lineblocks_loop_none_rest. exact (none_of (fun d => re_search (l_re d) fence) _ Fl).
+  - unfold lists_render, bind, matchItem. rewrite matchItem_loop_none_rest; [reflexivity|].
+    exact (none_of (fun d => re_search (li_re d) fence) _ Fli).
+  - unfold code_html. rewrite <- !app_assoc. apply (dblocks_render_code fuel doc content rest s Hq Hc Hnot).
+Qed.
+
+(* a fenced code block, a blank line, a paragraph line: the two elements in order *)
+Theorem code_then_paragraph n k doc content l R s (Hpl : para_line (ienv_of s) l R) :
+  quiet_default s -> Forall nlfree content -> ~ In fence content ->
+  doc_loop (S (S (S (S n)))) doc (S (S (S k))) (fence :: content ++ fence :: [[]; l]) s =
+  Ok (code_html content ++ [10] ++ $"<p>" ++ R ++ $"</p>", code_after s).
+Proof.
+  intros Hq Hc Hnot. rewrite (code_block_then_rest (S (S (S n))) doc (S (S k)) content [[]; l] s Hq Hc Hnot).
+  assert (Hpl' : para_line (ienv_of (code_after s)) l R) by (unfold code_after, set_closeRe; destruct s; exact Hpl).
+  rewrite (para_line_loop l R n k doc [[]; l] (code_after s) Hpl' (quiet_code_after s Hq)).
+  - reflexivity.
+  - cbn [skipBlankLines]. replace (is_empty (strip [])) with true by reflexivity.
+    destruct (pl_first _ _ _ Hpl) as (c & rest & -> & Hcc). rewrite strip_nonblank; [reflexivity|exact Hcc].
+Qed.
